@@ -68,11 +68,15 @@ def parameter_table(rng):
     return E.Table(5, b'PARAMETER', None, template, objs)
 
 
-def convertible_file(rng, max_frames=40, max_logical_files=2, max_types=2, max_channels=5, with_parameters=True, min_frames=2):
+def convertible_file(rng, max_frames=40, max_logical_files=2, max_types=2, max_channels=5, with_parameters=True, min_frames=2, name_pool=None):
     """-> (lrs, model).  Same structure as logpass.random_logpass_file (interleaved frame types, empty data records, random CHANNEL order)
     but without encrypted records and foreign sets, and with a populated ORIGIN in every logical file."""
-    lrs, model = logpass.random_logpass_file(rng, max_frames=max_frames, max_logical_files=max_logical_files, max_types=max_types,
-                                             max_channels=max_channels, encrypted=False, other_tables=False)
+    logpass.NAME_POOL = list(name_pool) if name_pool else None
+    try:
+        lrs, model = logpass.random_logpass_file(rng, max_frames=max_frames, max_logical_files=max_logical_files, max_types=max_types,
+                                                 max_channels=max_channels, encrypted=False, other_tables=False)
+    finally:
+        logpass.NAME_POOL = None
     for lf in model.logical_files:
         idx, _old = lf.tables[1]
         assert lrs[idx].eflr and lrs[idx].lr_type == 1
